@@ -5,6 +5,7 @@ import Thanos.Model.Frames
 import Thanos.Model.StoreSpec
 import Thanos.Model.Limiter
 import Thanos.Model.Partition
+import Thanos.Model.Postings
 /-
   Line-protocol driver of the `stores` family (C07 C08 C09 C10 C15).
   One request per line, one answer per line; every line is self-contained.
@@ -30,6 +31,8 @@ import Thanos.Model.Partition
   C10
     st.hist bkt+<cfg> <blocks> <req>!<req>!…   req = mint~maxt~matchers~without~skip  -> answers joined by ` | `
     part.gap <maxGap> <start:end,…>            -> `start:end:i:j,…`
+    pg.groups <lvals> <matchers>               lvals = name=v+v;…  matchers = typ.name.pathex.value.flags.set.ok,…
+                                               -> `name:addAll:adds:rems;…` | `nil`
 -/
 open Thanos Thanos.Parse
 
@@ -177,6 +180,32 @@ def handleLimits (kind blocks mint maxt matchers without skip : String) : String
       s!"ok s={StoreSpec.countSeries es} c={c}"
   | _, _ => "bad-op"
 
+def parsePlus (s : String) : Option (List Nat) :=
+  if s = "_" ∨ s = "-" ∨ s = "" then some [] else (splitChar '+' s).mapM parseNat?
+
+def parsePMatcher (s : String) : Option Postings.PMatcher :=
+  match splitChar '.' s with
+  | [t, n, pat, v, fl, set, ok] => do
+    let t ← parseNat? t
+    let n ← parseNat? n
+    let v := (parseNat? v).getD 0   -- `-1`: the pattern is no table value (only used for = / !=, where it then matches nothing in the table)
+    let fl ← parseNat? fl
+    let set ← parsePlus set
+    let ok ← parsePlus ok
+    pure ⟨n, t, v, fl % 2 == 1, (fl / 2) % 2 == 1, (fl / 4) % 2 == 1, set, ok, pat⟩
+  | _ => none
+
+def parseLvals (s : String) : Option (List (Nat × List Nat)) :=
+  (listOf ';' s).mapM fun t =>
+    match splitChar '=' t with
+    | [n, vs] => do
+      let n ← parseNat? n
+      let vs ← parsePlus vs
+      pure (n, vs)
+    | _ => none
+
+def showKeys (ks : List Nat) : String := if ks.isEmpty then "_" else "+".intercalate (ks.map toString)
+
 def zipIdx (xs : List Int) : List Frames.Chunk :=
   let rec go : Nat → List Int → List Frames.Chunk
     | _, [] => []
@@ -208,6 +237,15 @@ def handle : List String → String
       | [a, b, ms, w, sk] => handleSeries kind blocks a b ms w sk
       | _ => "bad-op"
     if answers.contains "bad-op" then "bad-op" else " | ".intercalate answers
+  | ["pg.groups", lvals, ms] =>
+    match parseLvals lvals, (listOf ',' ms).mapM parsePMatcher with
+    | some lv, some ms =>
+      let lvalsFn := fun n => ((lv.find? (·.1 == n)).map (·.2)).getD []
+      match Postings.matchersToPostingGroups lvalsFn ms with
+      | none => "nil"
+      | some gs => joinWith ";" (gs.map fun g =>
+          s!"{g.name}:{if g.addAll then 1 else 0}:{showKeys g.addKeys}:{showKeys g.removeKeys}")
+    | _, _ => "bad-op"
   | ["part.gap", maxGap, rs] =>
     let parseR (t : String) : Option (Nat × Nat) :=
       match (splitChar ':' t).mapM parseNat? with
